@@ -1,10 +1,91 @@
 import Driver.Util
-open Lean Driver
+import Driver.Img
+import GinjaxVerif.Model.Action
+import GinjaxVerif.Model.C05
+open Lean Driver GinjaxVerif GinjaxVerif.C05
 
+/-! Driver ops for C05: evaluate an expression tree over integer leaf images with the Lean model
+(`tyOf`, `eval`), report the declared type and the values.  `norm` nodes are evaluated with
+`sqrtF := id`, i.e. they report the *squared* norm (exact). -/
 namespace Driver.C05
 
-def handle (op : String) (_j : Json) : R Json := do
+partial def parseExpr (j : Json) : R (Expr Int) := do
+  let op ← strF j "op"
   match op with
+  | "leaf" => pure (.leaf (← natF j "i"))
+  | "add" => pure (.add (← field j "a" >>= parseExpr) (← field j "b" >>= parseExpr))
+  | "sub" => pure (.sub (← field j "a" >>= parseExpr) (← field j "b" >>= parseExpr))
+  | "smul" => pure (.smul (← intF j "c") (← field j "a" >>= parseExpr))
+  | "mul" => pure (.mul (← field j "a" >>= parseExpr) (← field j "b" >>= parseExpr))
+  | "transpose" => pure (.transpose (← listF asNat j "perm") (← field j "a" >>= parseExpr))
+  | "contract" => pure (.contract (← natF j "i") (← natF j "j") (← field j "a" >>= parseExpr))
+  | "multicontract" =>
+    let ps ← listF (asList asNat) j "pairs"
+    if ps.any (·.length ≠ 2) then throw "pairs must have two entries"
+    pure (.multicontract (ps.map (fun p => (p.getD 0 0, p.getD 1 0))) (← field j "a" >>= parseExpr))
+  | "levi_civita" => pure (.leviCivita (← listF asNat j "idxs") (← field j "a" >>= parseExpr))
+  | "normsq" => pure (.norm (← field j "a" >>= parseExpr))
+  | "conv" => pure (.conv (← field j "a" >>= parseExpr) (← natF j "f"))
+  | _ => throw s!"unknown node {op}"
+
+def maxLeaf : Expr Int → Nat
+  | .leaf i => i
+  | .add a b | .sub a b | .mul a b => max (maxLeaf a) (maxLeaf b)
+  | .smul _ a | .transpose _ a | .contract _ _ a | .multicontract _ a | .leviCivita _ a
+  | .norm a => maxLeaf a
+  | .conv a f => max (maxLeaf a) f
+
+def inBoxB {d : Nat} (dims : Fin d → Nat) (y : Fin d → Int) : Bool :=
+  (List.finRange d).all (fun i => decide (0 ≤ y i) && decide (y i < (dims i : Int)))
+
+/-- array-backed copy, identical to `A` outside the box / on index lists of the wrong length -/
+def tabSafe {d : Nat} (A : Img Int d) : Img Int d :=
+  let T := tabulate A
+  { dims := A.dims, k := A.k
+    val := fun y n => if n.length == A.k && inBoxB A.dims y then T.val y n else A.val y n }
+
+def parseLeaf (d : Nat) (j : Json) : R (GImg Int d) := do
+  let img ← field j "image" >>= parseImg d
+  let p ← natF j "parity"
+  let tor ← listF asBool j "torus"
+  if tor.length ≠ d then throw "torus must have length d"
+  pure (GImg.mk' img p (listToFn d false tor))
+
+def tyJson {d : Nat} (t : Ty d) : List (String × Json) :=
+  [("k", jNat t.k), ("parity", jNat t.p), ("dims", jList jNat (fnToList t.dims)),
+   ("torus", jList jBool (fnToList t.torus))]
+
+def handle (op : String) (j : Json) : R Json := do
+  match op with
+  | "c05.eval" | "c05.ty" =>
+    let d ← natF j "d"
+    let leaves ← listF (parseLeaf d) j "leaves"
+    let e ← field j "expr" >>= parseExpr
+    if maxLeaf e ≥ leaves.length then throw "leaf index out of range"
+    let dflt : GImg Int d := ⟨⟨fun _ => 0, 0, fun _ _ => 0⟩, 0, fun _ => false⟩
+    let env : Nat → GImg Int d := fun i => leaves.getD i dflt
+    match tyOf (fun i => (env i).ty) e with
+    | none => throw "ill-typed"
+    | some t =>
+      if op == "c05.ty" then pure (Json.mkObj (tyJson t))
+      else
+        let G := eval tabSafe (fun x => x) convI env e
+        -- the bookkeeping carried by `eval` must agree with the static checker
+        if G.p ≠ t.p ∨ G.img.k ≠ t.k ∨ fnToList G.img.dims ≠ fnToList t.dims
+            ∨ fnToList G.torus ≠ fnToList t.torus then
+          throw "internal: eval bookkeeping differs from tyOf"
+        pure (Json.mkObj (tyJson t ++ [("image", imgToJson G.img)]))
+  | "c05.lc" =>
+    let d ← natF j "d"
+    let tens := List.replicate d d
+    let vals := (boxIdx tens).map (fun n =>
+      leviCivitaSym d (n.filterMap (fun a => if h : a < d then some (⟨a, h⟩ : Fin d) else none)))
+    pure (Json.mkObj [("shape", jList jNat tens), ("data", jList jInt vals)])
+  | "c05.parity" =>
+    let pi ← listF asNat j "pi"
+    pure (jInt (permParity pi))
+  | "c05.block_swap" =>
+    pure (jList jNat (blockSwap (← natF j "ka") (← natF j "kb")))
   | _ => throw s!"unknown op {op}"
 
 end Driver.C05
